@@ -25,7 +25,10 @@
                                           request's own routing context, so the later routing appends
                                           the pattern and parameters a second time
      mux.preroute_matches_decoded_path    that early Match uses URL.Path even when chi will route on RawPath
-     mux.resolve_trims_trailing_slash     chi's RoutePattern() trims a trailing slash of the registered pattern *)
+     mux.resolve_trims_trailing_slash     chi's RoutePattern() trims a trailing slash of the registered pattern and
+                                          ResolvePattern does not put it back
+   The quirks of chi's RoutePattern() (inner "/*" dropped, trailing "//" and "/" trimmed) are modelled as they
+   are, so that each deviation alone predicts exactly what the code with only that defect does. *)
 EXTENDS PathStrings, TLC
 
 CONSTANTS Deviations,
